@@ -1,6 +1,7 @@
 import JwtModel.Scope
 import JwtProofs.Encode
 import Props.C12
+import Props.CodecRoundTrip
 /-!
 # C14 — scoped signing keys and the one-call user-token issuer honour their contract
 
